@@ -110,6 +110,15 @@ func observe(g graph.Graph) string {
 var classCounts = []int{1, 1, 2, 4, 11, 34, 156, 1044}
 
 func words(r *hx.Rng, count, alpha, maxLen int) [][]byte {
+	// at most 1 + alpha + ... + alpha^maxLen distinct words exist (a larger count never ends)
+	possible, pw := 0, 1
+	for l := 0; l <= maxLen && possible < count; l++ {
+		possible += pw
+		pw *= alpha
+	}
+	if count > possible {
+		count = possible
+	}
 	set := map[string]bool{}
 	for len(set) < count {
 		l := r.Range(0, maxLen)
